@@ -146,6 +146,13 @@ func c07Doc(r *hx.Run, family string, doc []byte) {
 		r.Violation("wrong-canonical-form:"+family, caseID, fmt.Sprintf("input %q\n  impl: %q\n  ref : %q", doc, got, want), map[string]interface{}{"input": string(doc)})
 		return
 	}
+	// an unrelated canonicalization in between must not disturb a result already returned (no shared scratch state), nor the input
+	inCopy := append([]byte(nil), doc...)
+	_, _ = canonicalizer.MarshalCanonical([]byte(`{"zz":[1e21,"\u20ac\ud83d\ude00"],"a":{"b":null}}`))
+	if !bytes.Equal(got, want) || !bytes.Equal(doc, inCopy) {
+		r.Violation("result-or-input-disturbed:"+family, caseID, fmt.Sprintf("after canonicalizing another document the earlier result reads %q (was %q), the input %q", got, want, doc), nil)
+		return
+	}
 	again, aerr := canonicalizer.MarshalCanonical(got)
 	if aerr != nil || !bytes.Equal(again, got) {
 		r.Violation("not-a-fixed-point:"+family, caseID, fmt.Sprintf("canonical output %q re-canonicalizes to %q (%v)", got, again, aerr), nil)
